@@ -185,6 +185,10 @@ func zooRun(r *ev.Run, which string) {
 			fwCompare(r, which, l, img, art)
 		case "C03":
 			zooEq(r, l, img, zc, art)
+		case "C04":
+			zooRowid(r, l, img, zc, art)
+		case "C19":
+			zooDriver(r, l, img, zc, art)
 		}
 	})
 }
@@ -215,6 +219,40 @@ func zooEq(r *ev.Run, l *lite.DB, img []byte, zc zooCase, art map[string]interfa
 	for ii := range t.Indexes {
 		ix := &t.Indexes[ii]
 		if t.WithoutRowid && ix.Origin == "pk" {
+			// the primary key itself: PKSelect with every stored prefix of length 1..2
+			var keyCols []LiteIndexCol
+			for _, c := range ix.Cols {
+				if c.Key {
+					keyCols = append(keyCols, c)
+				}
+			}
+			for plen := 1; plen <= len(keyCols) && plen <= 2; plen++ {
+				var names, conds []string
+				for i, c := range keyCols[:plen] {
+					names = append(names, QI(c.Name))
+					conds = append(conds, fmt.Sprintf("+%s COLLATE %s IS ?%d", QI(c.Name), c.Coll, i+1))
+				}
+				keys, err := l.Query("SELECT DISTINCT " + strings.Join(names, ", ") + " FROM " + QI(t.Name))
+				if err != nil {
+					return
+				}
+				for _, key := range keys {
+					want, err := l.Query("SELECT "+colList(sel)+" FROM "+QI(t.Name)+" WHERE "+strings.Join(conds, " AND ")+" ORDER BY "+t.PKOrder(l), key...)
+					if err != nil {
+						r.Harness("zoo pk query: %v", err)
+						return
+					}
+					var got [][]interface{}
+					gerr := h.PKSelect(t.Name, sqlittle.Key(key), func(row sqlittle.Row) { got = append(got, CopyRow(row)) }, sel...)
+					r.Eval(1)
+					r.Trans(1)
+					r.Validated(1)
+					if gerr != nil || !RowsEq(got, want, true) {
+						r.Violation("C03:zoo:PKSelect", fmt.Sprintf("%s: PKSelect(%s): err=%v got %v, SQLite %v", zc.name, RowS(key), gerr, clip(RowsS(got)), clip(RowsS(want))), map[string]interface{}{"case": zc.name, "create": zc.stmts[0], "key": RowS(key)})
+						return
+					}
+				}
+			}
 			continue
 		}
 		if sc.NamedIndex(ix.Name) == nil {
@@ -270,6 +308,98 @@ func zooEq(r *ev.Run, l *lite.DB, img []byte, zc zooCase, art map[string]interfa
 					return
 				}
 			}
+		}
+	}
+}
+
+// zooRowid: SelectRowid / PKSelect(alias) for every present rowid and its neighbours, vs SQLite
+func zooRowid(r *ev.Run, l *lite.DB, img []byte, zc zooCase, art map[string]interface{}) {
+	ts, err := LiteSchema(l)
+	if err != nil || len(ts) == 0 || ts[0].WithoutRowid {
+		return
+	}
+	t := &ts[0]
+	kw := RowidKeyword(t.Cols)
+	if kw == "" {
+		return
+	}
+	h, _, _, err := vpager.OpenImage(img)
+	if err != nil {
+		r.Violation("C04:zoo-open", fmt.Sprintf("database written by SQLite refused: %v", err), art)
+		return
+	}
+	ids, err := l.Query("SELECT " + kw + " FROM " + QI(t.Name))
+	if err != nil {
+		r.Harness("zoo rowids: %v", err)
+		return
+	}
+	probe := map[int64]bool{0: true, -1: true}
+	for _, row := range ids {
+		id := row[0].(int64)
+		probe[id], probe[id-1], probe[id+1] = true, true, true
+	}
+	for id := range probe {
+		want, err := l.Query("SELECT "+colList(t.Cols)+" FROM "+QI(t.Name)+" WHERE "+kw+" = ?1", id)
+		if err != nil {
+			r.Harness("zoo rowid query: %v", err)
+			return
+		}
+		row, gerr := h.SelectRowid(t.Name, id, t.Cols...)
+		r.Eval(1)
+		r.Trans(1)
+		r.Validated(1)
+		a2 := map[string]interface{}{"case": zc.name, "create": zc.stmts[0], "rowid": id}
+		var got [][]interface{}
+		if row != nil {
+			got = append(got, CopyRow(row))
+		}
+		if gerr != nil || !RowsEq(got, want, true) {
+			r.Violation("C04:zoo:SelectRowid", fmt.Sprintf("%s: SelectRowid(%d): err=%v got %v, SQLite %v", zc.name, id, gerr, RowsS(got), RowsS(want)), a2)
+			return
+		}
+	}
+}
+
+// zooDriver: SELECT * and SELECT <each column> through the driver vs SQLite
+func zooDriver(r *ev.Run, l *lite.DB, img []byte, zc zooCase, art map[string]interface{}) {
+	ts, err := LiteSchema(l)
+	if err != nil || len(ts) == 0 {
+		return
+	}
+	t := &ts[0]
+	h, _, _, err := vpager.OpenImage(img)
+	if err != nil {
+		r.Violation("C19:zoo-open", fmt.Sprintf("database written by SQLite refused: %v", err), art)
+		return
+	}
+	lists := [][]string{{"*"}}
+	for _, c := range t.Cols {
+		lists = append(lists, []string{c}, []string{c, "*"})
+	}
+	for _, list := range lists {
+		var sel []string
+		for _, c := range list {
+			if c == "*" {
+				sel = append(sel, "*")
+			} else {
+				sel = append(sel, QI(c))
+			}
+		}
+		want, err := l.Query("SELECT " + strings.Join(sel, ", ") + " FROM " + QI(t.Name) + " ORDER BY " + t.PKOrder(l))
+		if err != nil {
+			r.Harness("zoo driver oracle: %v", err)
+			return
+		}
+		c := &collector{}
+		// the driver's SELECT grammar takes bare or quoted identifiers
+		derr := driverQuery(h, "SELECT "+strings.Join(list, ", ")+" FROM "+t.Name, c)
+		r.Eval(1)
+		r.Trans(1)
+		r.Validated(1)
+		a2 := map[string]interface{}{"case": zc.name, "create": zc.stmts[0], "columns": list}
+		if derr != nil || !RowsEq(c.res.Rows, want, true) {
+			r.Violation("C19:zoo:rows", fmt.Sprintf("%s: SELECT %s FROM z through the driver: err=%v, %s", zc.name, strings.Join(list, ", "), derr, firstDiffSafe(c.res.Rows, want)), a2)
+			return
 		}
 	}
 }
